@@ -18,51 +18,99 @@ ASSUMPTIONS = ['the caller keeps no reference to the array a FixedWaveform was b
 FS = 1000.0
 
 
+NCAR = 16
+FILTERED_CARRIERS = (9, 10, 11, 12)
+# next(0) on a filtered noise factory hands scipy.signal.lfilter an empty chunk: the IIR factories then keep UNINITIALISED memory as
+# filter state (stream after it differs from run to run), the FIR ones raise ValueError.  Reported to the coordinator; zero-length
+# counts on these carriers are switched on here once /repo is repaired.
+ZERO_CHUNK_ON_FILTERED = False
+FIR_CARRIERS = (9, 10)      # FIR noise: scipy filters a chunk by convolution, so chunked and one-shot output differ by rounding (1e-12 allowed)
+
+
 def _carrier(c):
+    """carrier c of the model: tone / silence / all four seeded noise factories / SAM tone / square wave, incl. seed 0,
+    NumPy-integer seeds and integer-typed parameters"""
     from psiaudio import stim
-    k = c % 3
-    if k == 0:
-        return stim.ToneFactory(FS, 50.0 + 7 * c, 1.0 + 0.1 * c)
-    if k == 1:
-        return stim.SilenceFactory(fill_value=2 + c)
-    return stim.BroadbandNoiseFactory(FS, 1.0, seed=c // 3)      # c = 2 -> seed 0 (a falsy seed is still a seed)
+    if c <= 8:
+        k = c % 3
+        if k == 0:
+            return stim.ToneFactory(FS, 50.0 + 7 * c, 1.0 + 0.1 * c)
+        if k == 1:
+            return stim.SilenceFactory(fill_value=2 + c)
+        return stim.BroadbandNoiseFactory(FS, 1.0, seed=c // 3)      # c = 2 -> seed 0 (a falsy seed is still a seed)
+    if c == 9:
+        from psiaudio.calibration import FlatCalibration
+        return stim.BandlimitedFIRNoiseFactory(FS, 100.0, 200.0, 1.0, ntaps=31, seed=0, calibration=FlatCalibration.unity())
+    if c == 10:
+        return stim.ShapedNoiseFactory(FS, 1.0, {0: -20, FS / 8: 0, FS / 4: -6, FS / 2: -40}, ntaps=31, seed=np.int64(5))
+    if c == 11:
+        return stim.BandlimitedNoiseFactory(FS, 0, 1.0, 100.0, 200.0, 1, 1, 80)
+    if c == 12:
+        return stim.BandlimitedNoiseFactory(FS, np.int64(3), 0.5, 100.0, 200.0, 1, 1, 80, polarity=-1)
+    if c == 13:
+        return stim.SAMToneFactory(FS, 100.0, 10.0, 1.0)
+    if c == 14:
+        return stim.SquareWaveFactory(FS, 2.0, FS / 7.0, 0.4)
+    if c == 15:
+        return stim.ToneFactory(1000, 50, 1)                          # integer-typed rate, frequency and level
+    raise KeyError(c)
 
 
 def _wave(w, n):
     return (np.arange(n, dtype=np.double) + 1.0) * 0.25 + 10.0 * (w + 1)
 
 
-def _cached_args(key, n):
-    """(function, args) memoised under `key`; n is part of the arguments"""
+NKEY = 8
+
+
+def _cached_call(key, n):
+    """(function, args, kwargs, element) memoised under `key`: every fast_cache'd function returning arrays; n is part of the
+    arguments where the function takes a length; element selects one array of a tuple result"""
     from psiaudio import stim
-    k = key % 3
+    k = key % NKEY
     if k == 0:
-        return stim.envelope, ('cosine-squared', FS, (10 + key) / FS, 3 / FS, 0, 0, n)
+        return stim.envelope, ('cosine-squared', FS, (10 + key) / FS, 3 / FS, 0, 0, n), {}, None
     if k == 1:
-        return stim.cos2envelope, (FS, (12 + key) / FS, 4 / FS, 1, 2 / FS, n)
-    return stim.sam_envelope, (key, n, FS, 1.0, 40.0 + key, 2 / FS, True)
+        return stim.cos2envelope, (FS, (12 + key) / FS, 4 / FS, 1, 2 / FS, n), {}, None
+    if k == 2:
+        return stim.sam_envelope, (key, n, FS, 1.0, 40.0 + key, 2 / FS, True), {}, None
+    if k == 3:
+        return stim._sam_envelope, (key, n, FS, 0.8, 30.0 + key, 2 / FS, 0.3, 1.1), {}, None
+    if k == 4:
+        # keyword form, a scipy window, rise_time left at its None default, integer-typed rate
+        return stim.envelope, (), {'window': 'hann', 'fs': 1000, 'duration': (10 + key) / FS, 'samples': n}, None
+    if k == 5:
+        import stimcore
+        return stim.load_wav, (FS, stimcore._wav_path(21, FS)), {}, None
+    # the filter-design helper returns a tuple (b, a, zi): every element is handed out to every caller
+    return stim._calculate_bandlimited_noise_filter, (FS, 100.0, 200.0, 50.0, 400.0, 1, 80), {}, (0 if k == 6 else 2)
+
+
+def _cached_result(key, n):
+    f, args, kw, el = _cached_call(key, n)
+    r = f(*args, **kw)
+    return r if el is None else r[el]
+
+
+def _unwrap(f):
+    while hasattr(f, '__wrapped__'):
+        f = f.__wrapped__
+    return f
 
 
 def _cached_uncached(key, n):
-    f, args = _cached_args(key, n)
-    g = f
-    while hasattr(g, '__wrapped__'):
-        g = g.__wrapped__
+    """the same function of the same arguments, computed afresh without any memo table"""
+    from psiaudio import stim
+    f, args, kw, el = _cached_call(key, n)
     if f.__name__ == 'cos2envelope':
-        from psiaudio import stim
-        e = stim.envelope
-        while hasattr(e, '__wrapped__'):
-            e = e.__wrapped__
         fs, dur, rise, off, start, samples = args
-        return np.array(e('cosine-squared', fs, dur, rise, off, start, samples), dtype=float)
+        return np.array(_unwrap(stim.envelope)('cosine-squared', fs, dur, rise, off, start, samples), dtype=float)
     if f.__name__ == 'sam_envelope':
-        from psiaudio import stim
         off, samples, fs, depth, fm, delay, eq = args
-        inner = stim._sam_envelope
-        while hasattr(inner, '__wrapped__'):
-            inner = inner.__wrapped__
-        return np.array(inner(off, samples, fs, depth, fm, delay, stim.sam_eq_phase(delay, depth, 1), stim.sam_eq_power(depth)), dtype=float)
-    return np.array(g(*args), dtype=float)
+        return np.array(_unwrap(stim._sam_envelope)(off, samples, fs, depth, fm, delay, _unwrap(stim.sam_eq_phase)(delay, depth, 1),
+                                                     _unwrap(stim.sam_eq_power)(depth)), dtype=float)
+    r = _unwrap(f)(*args, **kw)
+    return np.array(r if el is None else r[el], dtype=float)
 
 
 def cases(tier, rng):
@@ -76,24 +124,52 @@ def cases(tier, rng):
         [['MkCar', 2], ['Next', 0, 4], ['GlobalRandom'], ['MkCar', 2], ['Next', 1, 4], ['GlobalRandom'], ['Next', 0, 3], ['Next', 1, 3], ['Reset', 0], ['Next', 0, 7]],
         [['MkCar', 5], ['DeepCopy', 0], ['Next', 0, 5], ['GlobalRandom'], ['Next', 1, 5], ['Write', 0, 1, 900000009], ['Next', 1, 2], ['Next', 0, 2]],
     ]
+    hand += [
+        # every seeded noise factory: same seed, the global state disturbed in every possible way in between, reset, deepcopy
+        [['MkCar', c], ['Next', 0, 4], ['GlobalRandom'], ['GlobalRandom'], ['MkCar', c], ['GlobalRandom'], ['Next', 1, 4], ['GlobalRandom'],
+         ['GlobalRandom'], ['Next', 0, 3], ['DeepCopy', 0], ['GlobalRandom'], ['Next', 1, 3], ['Next', 2, 5], ['Next', 0, 5], ['Reset', 0],
+         ['GlobalRandom'], ['Next', 0, 7], ['Write', 0, 1, 900000011], ['Reset', 1], ['Next', 1, 9]] for c in (2, 9, 10, 11, 12)
+    ] + [
+        # every memoised function: ask, try to write into the answer, ask again, read the first answer again
+        [['CachedCall', k, 6 + k], ['Write', 0, 0, 900000012], ['Write', 0, 2, 900000013], ['CachedCall', k, 6 + k], ['ReadView', 0],
+         ['Write', 1, 1, 900000014], ['CachedCall', k, 6 + k]] for k in range(NKEY)
+    ] + [
+        # a noise factory built from the cached filter coefficients after the caller tried to overwrite them
+        [['CachedCall', 6, 12], ['Write', 0, 0, 900000015], ['CachedCall', 7, 13], ['Write', 1, 0, 900000016], ['MkCar', 11], ['Next', 0, 6],
+         ['MkCar', 12], ['Next', 1, 6]],
+        # FixedWaveform asked with the float count n_samples_remaining() returns, then written to, reset, deep-copied
+        [['MkFixed', 0, 7], ['Next', 0, 3], ['Write', 0, 1, 900000017], ['Next', 0, 4], ['Write', 1, 0, 900000018], ['Reset', 0], ['DeepCopy', 0],
+         ['Next', 0, 7], ['Next', 1, 9]],
+    ]
     for p in hand:
-        yield {'k': 'prog', 'prog': p}
+        yield {'k': 'prog', 'prog': p, 'kinds': {str(i): ('f' if p[0][0] == 'MkFixed' and len(p) == 9 and p[-1] == ['Next', 1, 9] else None)
+                                                 for i, o in enumerate(p) if o[0] == 'Next'}}
     for _ in range(400 if quick else 8000):
-        yield {'k': 'prog', 'prog': _random_prog(rng)}
-    for _ in range(40 if quick else 600):
+        prog, kinds = _random_prog(rng)
+        yield {'k': 'prog', 'prog': prog, 'kinds': kinds}
+    for _ in range(60 if quick else 800):
         yield {'k': 'queue', 'seed': rng.randint(0, 10 ** 6)}
+    for j in range(150 if quick else 2500):
+        yield {'k': 'gen', 'seed': 1000 * rng.randint(0, 10 ** 4) + j}      # seed % catalogue size walks through every generator type
+    for _ in range(30 if quick else 400):
+        yield {'k': 'memo', 'seed': rng.randint(0, 10 ** 6)}
 
 
 def _random_prog(rng):
-    prog, nobj, live, nviews, nwave = [], 0, [], 0, 0
+    """returns (program, kinds): kinds maps the position of a Next to the type of its count ('np' NumPy integer, 'f' the NumPy
+    float that n_samples_remaining() of a finite waveform returns; only where the generator type accepts it)"""
+    prog, nobj, live, nviews, nwave, kinds, typ, filt = [], 0, [], 0, 0, {}, {}, {}
     for _ in range(rng.randint(4, 25)):
         u = rng.random()
         if u < 0.12 or not live:
-            if rng.random() < 0.55:
+            if rng.random() < 0.45:
                 prog.append(['MkFixed', nwave, rng.randint(0, 12)])
                 nwave += 1
+                typ[nobj] = 'fixed'
             else:
-                prog.append(['MkCar', rng.randint(0, 8)])
+                prog.append(['MkCar', rng.randint(0, NCAR - 1)])
+                typ[nobj] = 'car'
+                filt[nobj] = prog[-1][1] in FILTERED_CARRIERS
             live.append(nobj)
             nobj += 1
         elif u < 0.2:
@@ -101,35 +177,50 @@ def _random_prog(rng):
             prog.append(['MkGate', rng.randint(0, 6), rng.randint(0, 10), oid])
             live.remove(oid)
             live.append(nobj)
+            typ[nobj] = 'gate'
+            filt[nobj] = filt.get(oid)
             nobj += 1
         elif u < 0.5:
-            prog.append(['Next', rng.choice(live), rng.randint(0, 9)])
+            oid = rng.choice(live)
+            v = rng.random()
+            if v < 0.25:
+                kinds[str(len(prog))] = 'np'
+            elif v < 0.45 and typ[oid] == 'fixed':
+                kinds[str(len(prog))] = 'f'
+            prog.append(['Next', oid, rng.randint(1 if (filt.get(oid) and not ZERO_CHUNK_ON_FILTERED) else 0, 9)])
             nviews += 1
         elif u < 0.57:
             prog.append(['Reset', rng.choice(live)])
         elif u < 0.64:
-            prog.append(['DeepCopy', rng.choice(live)])
+            oid = rng.choice(live)
+            prog.append(['DeepCopy', oid])
             live.append(nobj)
+            typ[nobj] = typ[oid]
+            filt[nobj] = filt.get(oid)
             nobj += 1
         elif u < 0.8 and nviews:
             prog.append(['Write', rng.randint(0, nviews - 1), rng.randint(0, 8), 900000000 + rng.randint(1, 99)])
         elif u < 0.86 and nviews:
             prog.append(['ReadView', rng.randint(0, nviews - 1)])
         elif u < 0.94:
-            key = rng.randint(0, 5)
+            key = rng.randint(0, NKEY - 1)
             prog.append(['CachedCall', key, 6 + key])
             nviews += 1
         else:
             prog.append(['GlobalRandom'])
-    return prog
+    return prog, kinds
 
 
 def impl(case):
     if case['k'] == 'queue':
         return _queue_case(case['seed'])
+    if case['k'] == 'gen':
+        return _gen_case(case['seed'])
+    if case['k'] == 'memo':
+        return _memo_case(case['seed'])
     from psiaudio import stim
     objs, views, out = [], [], []
-    for o in case['prog']:
+    for i, o in enumerate(case['prog']):
         k = o[0]
         try:
             if k == 'MkFixed':
@@ -145,7 +236,9 @@ def impl(case):
                 objs.append(stim.GateFactory(FS, o[1] / FS, o[2] / FS, inner))
                 out.append(['nothing'])
             elif k == 'Next':
-                a = objs[o[1]].next(o[2])
+                kind = (case.get('kinds') or {}).get(str(i))
+                n = np.int64(o[2]) if kind == 'np' else (np.float64(o[2]) if kind == 'f' else o[2])
+                a = objs[o[1]].next(n)
                 views.append(a)
                 out.append(['vals', [float(v) for v in a]])
             elif k == 'Reset':
@@ -163,17 +256,36 @@ def impl(case):
             elif k == 'ReadView':
                 out.append(['vals', [float(v) for v in views[o[1]]]])
             elif k == 'CachedCall':
-                f, args = _cached_args(o[1], o[2])
-                a = f(*args)
+                a = _cached_result(o[1], o[2])
                 views.append(a)
                 out.append(['vals', [float(v) for v in a]])
             elif k == 'GlobalRandom':
-                np.random.seed(len(out))
-                np.random.uniform(size=3)
+                _disturb_global(len(out))
                 out.append(['nothing'])
         except (AttributeError, TypeError, AssertionError):
             out.append(['raised'])
     return out
+
+
+def _disturb_global(j):
+    """someone else uses NumPy's global random state (seeded with the very seeds the generators use, drawn from, shuffled, restored)"""
+    kind = j % 5
+    if kind == 0:
+        np.random.seed(j)
+        np.random.uniform(size=3)
+    elif kind == 1:
+        np.random.seed(0)
+    elif kind == 2:
+        np.random.shuffle(np.arange(7))
+        np.random.randint(0, 10, size=2)
+    elif kind == 3:
+        st = np.random.get_state()
+        np.random.seed(1)
+        np.random.random_sample(5)
+        np.random.set_state(st)
+    else:
+        np.random.seed(None)
+        np.random.standard_normal(2)
 
 
 def _op(o):
@@ -184,10 +296,23 @@ def _op(o):
 
 
 def expr(case, res):
-    if case['k'] == 'queue':
+    if case['k'] != 'prog':
         return '([] : list Z)'
-    p = listlit([_op(o) for o in case['prog']])
-    return f"run_prog {p} ++ [if isolation_test {p} then 1 else 0]"
+    p = listlit([_op(o) for o in _model_prog(case, res)])
+    return f"(let p := {p} in run_prog p ++ [if isolation_test p then 1 else 0])"
+
+
+def _model_prog(case, res):
+    """the program as the model sees it: a memoised function without a length argument (wav file, filter coefficients)
+    returns as many values as the implementation returned at its first call"""
+    seen, prog = {}, []
+    for o, r in zip(case['prog'], res):
+        if o[0] == 'CachedCall':
+            if o[1] not in seen:
+                seen[o[1]] = len(r[1]) if (r[0] == 'vals' and o[1] % NKEY >= 5) else o[2]
+            o = ['CachedCall', o[1], seen[o[1]]]
+        prog.append(o)
+    return prog
 
 
 def _value(code, carriers, ncache):
@@ -206,7 +331,7 @@ def _value(code, carriers, ncache):
 
 
 def agree(case, res, mo):
-    if case['k'] == 'queue':
+    if case['k'] != 'prog':
         return None
     if mo[-1] != 1:
         return 'the executable form of C10_refines_pure is false on this program'
@@ -221,6 +346,7 @@ def agree(case, res, mo):
     for o in case['prog']:
         if o[0] == 'CachedCall' and o[1] not in ncache:
             ncache[o[1]] = _cached_uncached(o[1], o[2])
+    fir_lo, fir_hi = 1000000 * (min(FIR_CARRIERS) + 1), 1000000 * (max(FIR_CARRIERS) + 2)
     pos = 0
     for i, (o, r) in enumerate(zip(case['prog'], res)):
         code, n = mo[pos], mo[pos + 1]
@@ -230,20 +356,27 @@ def agree(case, res, mo):
         if r[0] != want:
             return f'op {i} {o}: implementation {r[0]}, model {want}'
         if want == 'vals':
-            exp = [_value(v, carriers, ncache) for v in vals]
-            if exp != r[1]:
+            try:
+                exp = [_value(v, carriers, ncache) for v in vals]
+            except IndexError:
+                return f'op {i} {o}: model returns {n} values, the un-memoised function fewer'
+            if any(fir_lo <= -v < fir_hi for v in vals):
+                bad = len(exp) != len(r[1]) or not np.allclose(exp, r[1], rtol=0, atol=1e-12)
+            else:
+                bad = exp != r[1]
+            if bad:
                 return f'op {i} {o}: implementation returned {r[1][:12]}, model {exp[:12]} (codes {vals[:12]})'
     return None
 
 
 def nontrivial(case, res):
-    if case['k'] == 'queue':
-        return True
+    if case['k'] != 'prog':
+        return not res.get('skip')
     return any(o[0] in ('Write', 'DeepCopy', 'GlobalRandom') for o in case['prog'])
 
 
 def oracle(case, res):
-    if case['k'] == 'queue':
+    if case['k'] != 'prog':
         return res.get('fail')
     from psiaudio import stim
     # memoised functions: every call returns the un-memoised value
@@ -304,36 +437,255 @@ def _replay(obj, ops):
             obj.reset()
 
 
+def _filtered(cfg):
+    return cfg['t'] in ('blnoise', 'firnoise', 'shaped', 'notch') or ('in' in cfg and _filtered(cfg['in']))
+
+
+def _count(n, kind):
+    return np.int64(n) if kind == 'np' else (np.float64(n) if kind == 'f' else n)
+
+
+def _gen_script(rng, cfg):
+    import stimcore
+    lo = 0 if (ZERO_CHUNK_ON_FILTERED or not _filtered(cfg)) else 1
+    kinds = [None, None, 'np'] + (['f'] if (cfg['t'] == 'fixed' or (stimcore.accepts_float(cfg) and cfg['t'] != 'notch')) else [])
+    ops = []
+    for _ in range(rng.randint(4, 14)):
+        u = rng.random()
+        if u < 0.45:
+            ops.append(['next', rng.choice([lo, 1, 2, 3, 5, 8, 13, rng.randint(lo, 40)]), rng.choice(kinds)])
+        elif u < 0.55:
+            ops.append(['reset'])
+        elif u < 0.65:
+            ops.append(['copy', rng.random() < 0.5, rng.randint(1, 9)])
+        elif u < 0.8:
+            ops.append(['disturb', rng.randint(0, 99)])
+        elif u < 0.92:
+            ops.append(['other', rng.choice([0, 1, 4, 11])])
+        else:
+            ops.append(['memo', rng.randint(0, NKEY - 1)])
+    ops.append(['next', rng.randint(max(lo, 1), 30), None])
+    return ops
+
+
+def _gen_case(seed):
+    """ONE generator type of the whole catalogue (harness/stimcore.py: every class of stim.py incl. nested transforms): the stream of
+    a generator that is disturbed in every way the property lists == the stream of a generator built afresh from the same
+    parameters and given only the same next()/reset() calls"""
+    import random
+    import stimcore
+    rng = random.Random(seed)
+    fs = FS
+    cat = stimcore.catalogue(fs, random.Random(0))
+    cfg = cat[seed % len(cat)]
+    script = _gen_script(rng, cfg)
+
+    def reference():
+        g = stimcore.mk(cfg, fs)
+        out = []
+        for op in script:
+            if op[0] == 'next':
+                out.append(np.array(g.next(_count(op[1], op[2])), dtype=float))
+            elif op[0] == 'reset':
+                g.reset()
+        return out
+    try:
+        want = reference()
+    except (ValueError, TypeError) as e:
+        # a configuration the code refuses (rise time longer than the envelope, waveform too long to repeat): nothing to compare
+        return {'cfg': cfg['t'], 'skip': type(e).__name__, 'fail': None}
+    np.random.seed(seed % 50)
+    g = stimcore.mk(cfg, fs)
+    other = stimcore.mk(cfg, fs)           # same parameters, same seed: runs in between
+    got, spare = [], []
+    for op in script:
+        if op[0] == 'next':
+            a = g.next(_count(op[1], op[2]))
+            got.append(np.array(a, dtype=float))
+            stimcore.scribble(a)           # the caller owns what it was handed
+        elif op[0] == 'reset':
+            g.reset()
+        elif op[0] == 'copy':
+            c = copy.deepcopy(g)
+            keep, drop = (c, g) if op[1] else (g, c)
+            stimcore.scribble(drop.next(op[2]) if op[2] else np.zeros(1))     # the other one moves on (and may be reset)
+            if op[2] % 2:
+                drop.reset()
+            spare.append(drop)
+            g = keep
+        elif op[0] == 'disturb':
+            _disturb_global(op[1])
+        elif op[0] == 'other':
+            if op[1]:
+                stimcore.scribble(other.next(op[1]))
+            else:
+                other.reset()
+        elif op[0] == 'memo':
+            stimcore.scribble(_cached_result(op[1], 6 + op[1]))
+    again = reference()
+    fail = None
+    for k, (a, b, c) in enumerate(zip(got, want, again)):
+        if not (np.array_equal(a, b) and np.array_equal(b, c)):
+            which = 'a generator disturbed by other objects / global state / caller writes / deepcopy' if not np.array_equal(a, b) \
+                else 'a generator built again later'
+            fail = (f'{cfg["t"]} generator {cfg}: chunk {k} of {which} differs from the same parameters and calls on a fresh object '
+                    f'({a[:6]} vs {b[:6]}); script {script}')
+            break
+    return {'cfg': cfg['t'], 'skip': None, 'fail': fail}
+
+
+def _tr_half(e):
+    return e * 0.5
+
+
+def _memo_case(seed):
+    """every memoised function, asked in random order with equal arguments of different kinds (int / float / NumPy scalar, positional /
+    keyword, str / Path), the caller trying to write into every answer: each answer equals the un-memoised function of its arguments"""
+    import random
+    from pathlib import Path
+    import stimcore
+    from psiaudio import stim
+    rng = random.Random(seed)
+    wav = stimcore._wav_path(21, FS)
+    num = lambda v: rng.choice([v, float(v), np.float64(v)] + ([int(v), np.int64(v)] if float(v) == int(v) else []))
+    cnt = lambda v: rng.choice([int(v), np.int64(v), np.int32(v)])       # offsets and lengths are integers of any kind
+    calls = []
+    for _ in range(rng.randint(6, 14)):
+        k = rng.randint(0, 9)
+        if k == 0:
+            n = rng.choice([9, 12])
+            a = ('cosine-squared', num(1000), 0.012, num(0.003), cnt(0), num(0), cnt(n))
+            calls.append((stim.envelope, a[:rng.randint(3, 7)], {}) if rng.random() < 0.5 else
+                         (stim.envelope, (), dict(window=a[0], fs=a[1], duration=a[2], rise_time=a[3], samples=n)))
+        elif k == 1:
+            calls.append((stim.envelope, ('hann', num(1000), 0.01, None), {'transform': rng.choice([None, _tr_half])}))
+        elif k == 2:
+            calls.append((stim.cos2envelope, (num(1000), 0.01, 0.002), rng.choice([{}, {'offset': cnt(3), 'samples': cnt(8)}, {'start_time': 0.002}])))
+        elif k == 3:
+            calls.append((stim.sam_eq_power, (num(rng.choice([1, 0.5, 0])),), {}))
+        elif k == 4:
+            calls.append((stim.sam_eq_phase, (num(rng.choice([0, 0.002])), num(rng.choice([1, 0.5, 0])), rng.choice([1, -1])), {}))
+        elif k == 5:
+            calls.append((stim._sam_envelope, (cnt(rng.choice([0, 3])), cnt(9), num(1000), num(1), num(40), num(0), 0.3, num(1)), {}))
+        elif k == 6:
+            calls.append((stim.sam_envelope, (cnt(rng.choice([0, 5])), cnt(7), num(1000), num(rng.choice([1, 0.5])), num(40), 0.002, True), {}))
+        elif k == 7:
+            calls.append((stim._calculate_bandlimited_noise_filter, (num(1000), num(100), num(200), num(50), num(400), num(1), num(80)), {}))
+        elif k == 8:
+            calls.append((stim.load_wav, (num(1000), rng.choice([wav, Path(wav)])),
+                          rng.choice([{}, {'normalization': 'pe'}, {'normalization': 'rms'}, {'level': None, 'normalization': None}])))
+        else:
+            from psiaudio.calibration import FlatCalibration
+            calls.append((stim.load_wav, (1000.0, wav, 0.0, _MEMO_CAL.setdefault('cal', FlatCalibration.unity())), {'normalization': 'pe'}))
+
+    def same(a, b):
+        if isinstance(a, tuple):
+            return isinstance(b, tuple) and len(a) == len(b) and all(same(x, y) for x, y in zip(a, b))
+        if isinstance(a, np.ndarray) or isinstance(b, np.ndarray):
+            return np.array_equal(np.asarray(a, dtype=float), np.asarray(b, dtype=float))
+        return a == b
+    fail = None
+    for f, args, kw in calls + calls[::-1]:
+        r = f(*args, **kw)
+        want = _unwrap(f)(*args, **kw)
+        if not same(r, want):
+            fail = f'{f.__name__}{args} {kw} returned {r!r:.200} but the function of these arguments is {want!r:.200}'
+            break
+        for a in (r if isinstance(r, tuple) else (r,)):
+            if isinstance(a, np.ndarray):
+                stimcore.scribble(a)
+    return {'n': len(calls), 'fail': fail}
+
+
+_MEMO_CAL = {}
+
+
+def _queue_sources(rng, fs, seed):
+    """what gets appended: arrays of several dtypes / write flags and finite generators of every seeded and memoised kind"""
+    import stimcore
+    tone = {'t': 'tone', 'f': 100.0, 'level': 1.0}
+    pool = [
+        lambda: _wave(0, 6),
+        lambda: (np.arange(5) * 3 - 7).astype(np.int16),
+        lambda: stimcore.fixed_raw({'n': 7, 'ro': True}),
+        lambda: stimcore.mk({'t': 'gate', 'start': 0, 'dur': 7, 'in': {'t': 'bbnoise', 'seed': seed % 11 + 1, 'level': 1.0}}, fs),
+        lambda: stimcore.mk({'t': 'gate', 'start': 1, 'dur': 6, 'in': {'t': 'bbnoise', 'seed': 0, 'level': 1.0}}, fs),
+        lambda: stimcore.mk({'t': 'env', 'window': 'cos2class', 'start': 0, 'dur': 8, 'rise': 2, 'in': tone}, fs),
+        lambda: stimcore.mk({'t': 'gate', 'start': 0, 'dur': 9, 'in': {'t': 'blnoise', 'seed': seed % 3, 'level': 1.0, 'fl': 100.0, 'fh': 200.0}}, fs),
+        lambda: stimcore.mk({'t': 'env', 'window': 'hann', 'start': 1, 'dur': 8, 'rise': 3,
+                             'in': {'t': 'firnoise', 'seed': seed % 4, 'level': 1.0, 'fl': 100.0, 'fh': 200.0, 'ntaps': 31}}, fs),
+        lambda: stimcore.mk({'t': 'gate', 'start': 0, 'dur': 6, 'in': {'t': 'shaped', 'seed': 0, 'level': 1.0, 'ntaps': 31}}, fs),
+        lambda: stimcore.mk({'t': 'fixed', 'n': 21, 'cls': 'wav'}, fs),
+        lambda: stimcore.mk({'t': 'fixed', 'n': 6}, fs),
+        lambda: stimcore.mk({'t': 'gate', 'start': 0, 'dur': 10,
+                             'in': {'t': 'sam', 'depth': 1.0, 'fm': 50.0, 'delay': 0.002, 'in': {'t': 'bbnoise', 'seed': 2, 'level': 1.0}}}, fs),
+        lambda: stimcore.mk({'t': 'gate', 'start': 2, 'dur': 7,
+                             'in': {'t': 'notch', 'f': 125.0, 'q': 1.33, 'in': {'t': 'bbnoise', 'seed': 3, 'level': 1.0}}}, fs),
+        lambda: stimcore.mk({'t': 'repeat', 'n': 2, 'skip': 0, 'rate': fs / 9.0, 'delay': 0.0, 'in': {'t': 'fixed', 'n': 5}}, fs),
+    ]
+    picks = [rng.randrange(len(pool)) for _ in range(rng.randint(3, 4))]
+    fir = any(k in (7, 8) for k in picks)      # FIR noise is chunk-invariant only up to rounding (1e-12 allowed by the property)
+    return (lambda: [pool[k]() for k in picks]), fir
+
+
+def _use_original(s, rng):
+    """later use of an object that was appended: the queue must hold its own copy of everything the object reaches"""
+    if isinstance(s, np.ndarray):
+        if s.flags.writeable:
+            s[...] = -5
+        return
+    u = rng.random()
+    if u < 0.5:
+        s.next(rng.randint(1, 9))
+    elif u < 0.65:
+        s.reset()
+    elif u < 0.85 and hasattr(s, 'input_factory'):
+        inner = s.input_factory
+        inner = getattr(inner, 'input_factory', inner) if rng.random() < 0.5 else inner
+        inner.next(rng.randint(1, 5))
+    elif isinstance(getattr(s, 'waveform', None), np.ndarray) and s.waveform.flags.writeable:
+        s.waveform[...] = -6
+    else:
+        s.next(2)
+
+
 def _queue_case(seed):
-    """queue.append isolation, clone independence, blocked-random order vs the global random state"""
+    """queue.append / extend isolation, clone independence, blocked-random order vs the global random state"""
     import random
     from psiaudio import stim, queue as Q
     rng = random.Random(seed)
     fs = FS
+    N = 120
+    pol = rng.choice(['fifo', 'blocked_random', 'blocked_random', 'inter', 'grouped', 'blocked_fifo'])
+    seedkind = rng.choice(['default', 'zero', 'int', 'np'])
+    how = rng.choice(['append', 'append', 'extend', 'extend_lists'])
+    mk_sources, fir = _queue_sources(rng, fs, seed)
+    eq = (lambda a, b: a.shape == b.shape and np.allclose(a, b, rtol=0, atol=1e-12)) if fir else np.array_equal
 
-    def build(polname, use_orig):
-        q = {'fifo': Q.FIFOSignalQueue, 'blocked_random': lambda **kw: Q.BlockedRandomSignalQueue(seed=seed % 7, **kw),
-             'inter': Q.InterleavedFIFOSignalQueue}[polname](fs=fs)
-        srcs = []
-        for k in range(3):
-            if k == 0:
-                s = _wave(k, 6)
-            elif k == 1:
-                s = stim.BroadbandNoiseFactory(fs, 1.0, seed=seed % 11 + k)
-                s = stim.GateFactory(fs, 0, 7 / fs, s)
-            else:
-                s = stim.Cos2EnvelopeFactory(fs, 8 / fs, 2 / fs, stim.ToneFactory(fs, 100.0, 1.0))
-            srcs.append(s)
-            q.append(s, 2, 1 / fs)
+    def build():
+        if pol == 'blocked_random':
+            kw = {'default': {}, 'zero': {'seed': 0}, 'int': {'seed': seed % 7}, 'np': {'seed': np.int64(seed % 5)}}[seedkind]
+            q = Q.BlockedRandomSignalQueue(fs=fs, **kw)
+        elif pol == 'grouped':
+            q = Q.GroupedFIFOSignalQueue(group_size=2, fs=fs)
+        else:
+            q = {'fifo': Q.FIFOSignalQueue, 'inter': Q.InterleavedFIFOSignalQueue, 'blocked_fifo': Q.BlockedFIFOSignalQueue}[pol](fs=fs)
+        srcs = mk_sources()
+        if how == 'append':
+            for s in srcs:
+                q.append(s, 2, 1 / fs)
+        elif how == 'extend':
+            q.extend(srcs, 2, 1 / fs)
+        else:
+            q.extend(srcs, [2] * len(srcs), [1 / fs] * len(srcs), duration=[None] * len(srcs))
         return q, srcs
-    pol = rng.choice(['fifo', 'blocked_random', 'inter'])
-    ref, _ = build(pol, False)
-    want = ref.pop_buffer(80)
-    # same queue, but the originals are used / modified after append, the global RNG is disturbed, and a clone runs interleaved
-    q, srcs = build(pol, True)
-    srcs[0][:] = -5.0
-    srcs[1].next(rng.randint(1, 9))
-    srcs[2].next(3)
+    ref, _ = build()
+    want = ref.pop_buffer(N)
+    # same queue, but the originals are used / modified after append (before and WHILE the queue plays them), the global RNG is
+    # disturbed, and clones run interleaved
+    q, srcs = build()
+    for s in srcs:
+        _use_original(s, rng)
     np.random.seed(rng.randint(0, 99))
     # a few samples into the first trial, clone; then read original and clone ALTERNATELY with different chunk
     # sizes (so that chunk boundaries cut through trials), writing into every returned buffer after copying it
@@ -342,8 +694,13 @@ def _queue_case(seed):
     got, gotc = [head.copy()], [head.copy()]
     head[:] = -9.0
     c = q.clone()
-    left, leftc = 80 - first, 80 - first
+    left, leftc = N - first, N - first
+    late, late_at = None, rng.randint(first, N - 1)
     while left > 0 or leftc > 0:
+        if rng.random() < 0.4:
+            _use_original(rng.choice(srcs), rng)
+        if rng.random() < 0.3:
+            _disturb_global(rng.randint(0, 99))
         if left > 0 and (leftc == 0 or rng.random() < 0.5):
             n = min(left, rng.randint(1, 17))
             buf = q.pop_buffer(n)
@@ -351,6 +708,8 @@ def _queue_case(seed):
             buf[:] = -7.0                      # the caller owns what it was handed
             np.random.uniform(size=rng.randint(0, 4))
             left -= n
+            if late is None and N - left >= late_at and left > 0:
+                late = (q.clone() if rng.random() < 0.5 else c.clone() if leftc == left else q.clone(), N - left)
         else:
             n = min(leftc, rng.randint(1, 23))
             buf = c.pop_buffer(n)
@@ -360,19 +719,29 @@ def _queue_case(seed):
     got = np.concatenate(got)
     gotc = np.concatenate(gotc)
     fail = None
-    if not np.array_equal(got, want):
-        fail = f'{pol} queue output depends on later use of the appended originals / the global random state / chunking'
-    elif not np.array_equal(gotc, want):
-        fail = f'cloned {pol} queue does not evolve independently of its original'
-    return {'pol': pol, 'fail': fail}
+    what = f'{pol} queue ({how}, sources {[type(s).__name__ for s in srcs]})'
+    if not eq(got, want):
+        fail = f'{what}: output depends on later use of the appended originals / the global random state / chunking'
+    elif not eq(gotc, want):
+        fail = f'cloned {what} does not evolve independently of its original'
+    elif late is not None and not eq(late[0].pop_buffer(N - late[1]), want[late[1]:]):
+        fail = f'{what} cloned after {late[1]} samples does not continue like its original'
+    return {'pol': pol, 'how': how, 'fail': fail}
 
 
 def distribution(cases, results):
     d = {}
-    for c in cases:
-        if c['k'] == 'queue':
-            d['queue'] = d.get('queue', 0) + 1
+    for c, r in zip(cases, results):
+        if c['k'] != 'prog':
+            kk = c['k'] + ''.join(f' {r.get(f)}' for f in ('pol', 'how', 'cfg') if isinstance(r, dict) and r.get(f))
+            d[kk] = d.get(kk, 0) + 1
+            if isinstance(r, dict) and r.get('skip'):
+                d['gen skipped (configuration refused)'] = d.get('gen skipped (configuration refused)', 0) + 1
         else:
             for o in c['prog']:
-                d[o[0]] = d.get(o[0], 0) + 1
+                kk = o[0] + (f' {o[1]}' if o[0] in ('MkCar', 'CachedCall') else '')
+                d[kk] = d.get(kk, 0) + 1
+            for v in (c.get('kinds') or {}).values():
+                if v:
+                    d['Next count ' + v] = d.get('Next count ' + v, 0) + 1
     return d
